@@ -22,7 +22,8 @@ func init() {
 			" R8 edit regions stop at the neighbours' comments (regions[i] reported as computed, monotone comment clamps, position-only classification in commentsFor); R1 also: File.Comments is only assigned the clean-up step's filtered own list." +
 			" R9 the text emitted for a file is not a window into a buffer re-used for another file (C03-R12)." +
 			" R10 the astdiff snapshot is taken with ast.NewCommentMap(fset, file, file.Comments) of the file being patched, on every path." +
-			" R11 adding an import leaves the other import blocks alone: call sites of astutil.AddNamedImport / AddImport (which merge all import declarations into the first) are reported — one known finding (F19).",
+			" R11 adding an import leaves the other import blocks alone: call sites of astutil.AddNamedImport / AddImport (which merge all import declarations into the first) are reported — one known finding (F19)." +
+			" R12 walkSlice answers equal only behind the edit script (or for empty lists / lists of plain values); R13 the file written holds only the new bytes (= C16-R1).",
 		Trusted:     commonTrusted,
 		Assumptions: commonAssumptions,
 	})
@@ -41,6 +42,10 @@ func runC17(r *an.Run) {
 	snapshotKnowsTheComments(r, "R10-the-snapshot-knows-the-comments")
 	importsAddedWithoutMerging(r, "R11-adding-an-import-leaves-other-import-blocks-alone")
 	snapshotAdvances(r, "R10-the-snapshot-knows-the-comments")
+	equalityOnlyThroughTheEditScript(r, "R12-lists-are-equal-only-through-the-edit-script")
+	// a comment appears once: the file written holds only the new bytes (no in-place write without truncation)
+	c16AtomicReplace(r)
+	relabel(r, "R1-no-destructive-open", "R13-the-file-written-holds-only-the-new-bytes")
 }
 
 func c17NoCommentConstructed(r *an.Run) {
